@@ -137,6 +137,8 @@ def run_grammar(case):
         classes.append("other-class-first")
     rd, w1 = _roundtrip(rdclass, rdtype, w, None, flags, tname)
     if rd is None:
+        if "must-reject" not in flags:
+            raise Violation("accept", f"{tname}: the well-formed value {w.hex()} is rejected", "rejected:" + tname)
         return {"nontrivial": False, "classes": ["rej:" + tname]}
     classes.append("acc:" + tname)
     if "unknown" not in flags and type(rd) is dns.rdata.GenericRdata:
